@@ -63,6 +63,8 @@ J05(t, k) ==
            ELSE IF InterchangeAlg(pre, c.i, c.j, c.g = 1).e = "" THEN "refused-although-the-requested-side-is-free"
            ELSE "ok")
        ELSE IF c.exc # "" THEN "unexpected-exception"
+       \* the horizontal attachment of every box as the library's own layer view records it must be the one its offsets say
+       ELSE IF FirstFailing(c.res) # "ok" THEN "interchanged-diagram-" \o FirstFailing(c.res)
        ELSE IF AsDiag(c.res) \in M[1] THEN "ok"
        ELSE IF M[1] = {} THEN "obstructed-move-not-refused"
        ELSE "result-not-admissible"
